@@ -221,3 +221,73 @@ def repair_by_any_command(kindi: int, fails: int) -> bool:
     head = (["close"] if fails == 0 else []) + ["open"]
     n = len(head) + len(BRINGUP)
     return view[:len(head)] == head and sorted(view[len(head):n], key=str) == sorted(BRINGUP, key=str) and len(view) > n
+
+
+# ------------------------------------------------------------------ the link comes back, but the bring-up checks refuse the device
+
+REFUSALS = ["device reports not onboarded", "signer of an unsupported version"]
+
+
+@obligation(tier="quick", parts=4, timeout=200,
+            part_names=lambda p: "%s / %s" % (["v5", "v1"][p // 2], REFUSALS[p % 2]),
+            bounds="a write / read error (symbolic) on a getPubKey; the link then re-opens but for `bad` (0..2, symbolic) following requests "
+                   "the bring-up finds a device it must not serve from - onboard byte symbolic (any value but 1) or a signer version outside "
+                   "5.x <= 5.4.1 (partition) -: each of these requests gets the device-error code, no command APDU goes out, nothing "
+                   "propagates out of the request handler; once the device is in order again the repair succeeds (re-open + bring-up) "
+                   "before the command; follow-up command symbolic among getPubKey / blockchainState (v1: getPubKey / sign)",
+            examples=[(0, dict(kindi=0, bad=1, onb=0, follow=0)), (1, dict(kindi=1, bad=2, onb=7, follow=1)), (2, dict(kindi=0, bad=1, onb=0, follow=1)),
+                      (3, dict(kindi=0, bad=0, onb=0, follow=0))])
+def repair_bring_up_refused(kindi: int, bad: int, onb: int, follow: int) -> bool:
+    """
+    pre: 0 <= kindi <= 1
+    pre: 0 <= bad <= 2
+    pre: 0 <= onb <= 255 and onb != 1
+    pre: 0 <= follow <= 1
+    post: _
+    """
+    v1 = part() // 2 == 1
+    refusal = part() % 2
+    DEVERR = -2 if v1 else -905
+    d = c04._device("getPubKey")
+    proto, dongle, world = make_stack(d, v1=v1)
+    st = {"armed": True}
+
+    def hook(idx, apdu):
+        if st["armed"]:
+            st["armed"] = False
+            raise_fault(KINDS[kindi])
+    world.fault_hook = hook
+    ver = 1 if v1 else 5
+    if handle(proto, valid_request("getPubKey", 1, version=ver)) != ("reply", {"errorcode": DEVERR}):
+        return False
+
+    def request():
+        if follow == 0:
+            return valid_request("getPubKey", 2, version=ver)
+        r = valid_request("sign", 1, version=ver) if v1 else valid_request("blockchainState", 0)
+        if v1:
+            r["message"] = r["message"]["hash"]
+        return r
+    good = (d.onboarded, d.signer_version)
+    for _ in range(bad):
+        if refusal == 0:
+            d.onboarded = onb
+        else:
+            d.signer_version = (5, 5, 0)
+        mark = len(world.log)
+        out = handle(proto, request())
+        view = cmds_of(world.log[mark:])
+        # device-error reply, the manager keeps running (nothing raised), and no command APDU: only close / open / bring-up queries
+        if out != ("reply", {"errorcode": DEVERR}):
+            return False
+        if any(type(c) is int and c not in BRINGUP for c in view) or "open" not in view:
+            return False
+    d.onboarded, d.signer_version = good
+    mark = len(world.log)
+    out = handle(proto, request())
+    view = cmds_of(world.log[mark:])
+    if out[0] != "reply" or out[1].get("errorcode") != 0:
+        return False
+    head = ["close", "open"]
+    n = len(head) + len(BRINGUP)
+    return view[:2] == head and sorted(view[2:n], key=str) == sorted(BRINGUP, key=str) and len(view) > n
